@@ -51,9 +51,12 @@ class ModeEvaluator:
         if meth is None:
             return []
         owner, fn = meth
+        self.ext_results: List[Tuple[str, Tuple[Tuple[str, bool], ...]]] = []
         for rv in self.call_function(fn, owner, {}):
             if isinstance(rv, FuncVal):
                 self.results.append(rv)
+            elif isinstance(rv, tuple) and rv and rv[0] == "extcallable":
+                self.ext_results.append((rv[1], rv[2]))
         # de-duplicate
         seen, out = set(), []
         for r in self.results:
@@ -188,6 +191,13 @@ class ModeEvaluator:
             v = env.get(e.id, UNKNOWN)
             if isinstance(v, tuple) and v and v[0] == "def":
                 return self.make_funcval(v[1], env, fn, owner)
+            if v is UNKNOWN and e.id not in env:
+                # a bare external callable handed out as the loader / dumper (`return tuple`)
+                m = owner.module if owner is not None else self.ci.module
+                r = self.repo.resolve_global(m, e.id)
+                if r.kind == "ext" and r.name.startswith("builtins.") and r.name.split(".")[-1] in (
+                        "tuple", "list", "set", "frozenset", "dict", "str", "int", "float", "bytes", "bool"):
+                    return ("extcallable", r.name, tuple(self.cond_stack))
             return v
         if isinstance(e, ast.Constant) and isinstance(e.value, bool):
             return ("bool", e.value)
@@ -259,3 +269,10 @@ class ModeEvaluator:
 
 def closures_for(repo: Repo, ci: ClassInfo, method: str, dt: Optional[str], strict: Optional[bool]) -> List[FuncVal]:
     return ModeEvaluator(repo, ci, dt, strict).run(method)
+
+
+def ext_callables_for(repo: Repo, ci: ClassInfo, method: str, dt: Optional[str], strict: Optional[bool]) -> List[str]:
+    """bare builtin callables (tuple, list, ...) a provider may hand out as THE loader / dumper in this mode"""
+    ev = ModeEvaluator(repo, ci, dt, strict)
+    ev.run(method)
+    return sorted({n for n, _c in ev.ext_results})
